@@ -4,5 +4,5 @@ set -u
 T=$(mktemp -d /tmp/seedtry-XXXXXX); rsync -a --exclude .git /repo/ $T/r/
 (cd $T/r && patch -p1 -s < "$1") || { echo "patch failed"; rm -rf $T; exit 2; }
 shift
-for id in "$@"; do REPO=$T/r /verif/run $id ${TIER:-quick} 2>&1 | grep -E "^VIOLATION|^KNOWN|HARNESS|quick:|thorough:" | cut -c1-300 | head -6; echo "  -> $id exit=${PIPESTATUS[0]}"; done
+for id in "$@"; do REPO=$T/r $(dirname $0)/../run $id ${TIER:-quick} 2>&1 | grep -E "^VIOLATION|^KNOWN|HARNESS|quick:|thorough:" | cut -c1-300 | head -6; echo "  -> $id exit=${PIPESTATUS[0]}"; done
 rm -rf $T
